@@ -57,7 +57,7 @@ CHECKS["C04"] = dict(
 CHECKS["C05"] = dict(
     category="model_checking",
     technique="exhaustive scheme/payload enumeration against a reference shape acceptor plus deviation-bounded schedule exploration (DX) of concurrent writers",
-    text="Every scheme line of <=2 (thorough 3) entries over 12 entry forms x stop x draw policy x 10 payload sizes: the write lengths of every flush-delimited packet k >= 1 must be accepted by line k (reference acceptor, nondeterministic in the draw), packets >= stop / without a line / on the server side are one unpadded write; the authentication preamble for every line 0; DX with 2-3 concurrent writers and <= 2 (3) pre-emptions checks wire order against packet index. Plus every line of 3..4 (5) entries over a reduced alphabet {c,7,8,30,100-400} and the first-flush size cases; draw policies incl. 'alternate'. Control packets (keep-alive request / answer, second SYN, refused frame) at every position among four data packets, singly and in pairs, under schemes whose lines all differ: each consumes exactly one packet index. 18 scheme spellings (stop beyond / below the number of lines, gaps, duplicate keys, blank lines). Client level: the preamble written by the real Client over the in-memory dialer seam (H12) and a mid-session push grid. The un-hooked random draw is covered by a labelled sampling supplement only (it cannot be enumerated); it does not decide the property.",
+    text="Every scheme line of <=2 (thorough 3) entries over 12 entry forms x stop x draw policy x 10 payload sizes: the write lengths of every flush-delimited packet k >= 1 must be accepted by line k (reference acceptor, nondeterministic in the draw), packets >= stop / without a line / on the server side are one unpadded write; the authentication preamble for every line 0; DX with 2-3 concurrent writers and <= 2 (3) pre-emptions checks wire order against packet index. Plus every line of 3..4 (5) entries over a reduced alphabet {c,7,8,30,100-400} and the first-flush size cases; draw policies incl. 'alternate'. Control packets (keep-alive request / answer, second SYN, refused frame) at every position among four data packets, singly and in pairs, under schemes whose lines all differ: each consumes exactly one packet index. A packet abandoned after 50 bytes (the caller's own time limit drops the write while the transport stalls, the session stays open): the packets behind it are shaped by the NEXT lines. 18 scheme spellings (stop beyond / below the number of lines, gaps, duplicate keys, blank lines). Client level: the preamble written by the real Client over the in-memory dialer seam (H12) and a mid-session push grid. The un-hooked random draw is covered by a labelled sampling supplement only (it cannot be enumerated); it does not decide the property.",
     note="Trusted: the acceptor (refmodel::accept_packet) written from the protocol's shaping rule; sizes > 65535 excluded (C04); a line 0 starting with a check mark may give 0 or its first range.",
     design="DESIGN.md §6 C05",
 )
